@@ -116,6 +116,38 @@ func VerifC08IndexKinds() {
 	nd.Reach("C08.indexkinds")
 }
 
+type c08Key string
+
+// VerifC08MapIndexKinds: only a string reads an entry of a string-keyed map: an integer is not turned
+// into the character with that code point, nor a float, a boolean or nil into anything.
+func VerifC08MapIndexKinds() {
+	m := map[string]any{"A": "x", "1": "y", "true": "z", "": "e"}
+	var idx any
+	switch nd.Choice(7) {
+	case 0:
+		idx = nd.IntIn(0, 127)
+	case 1:
+		idx = 1.0
+	case 2:
+		idx = true
+	case 3:
+		idx = nil
+	case 4:
+		idx = []any{"A"}
+	case 5:
+		idx = nd.Uint8()
+	case 6:
+		idx = int32(65)
+	}
+	var mv any = m
+	if nd.Choice(2) == 1 {
+		mv = yaml.MapSlice{{Key: "A", Value: "x"}, {Key: "1", Value: "y"}}
+	}
+	out, err := vRender("[{{ m[i] }}]{% if m contains i %}c{% endif %}", Bindings{"m": mv, "i": idx})
+	nd.Assert(err == nil && out == "[]", "non-string-index-reads-nothing")
+	nd.Reach("C08.mapindexkinds")
+}
+
 // VerifC08Map: a.b and a["b"] read a map entry; a.size is the entry count when there is
 // no such key; missing keys, scalars and nil give nil.
 func VerifC08Map() {
@@ -151,7 +183,21 @@ func VerifC08Map() {
 	}
 	if sizeMode == 2 {
 		// a present key wins even when its value is nil (maps whose value type admits nil)
-		m = map[string]any{"k": v, "j": 7, "size": nil}
+		switch nd.Choice(3) {
+		case 0:
+			m = map[string]any{"k": v, "j": 7, "size": nil}
+		case 1:
+			m = yaml.MapSlice{{Key: "k", Value: v}, {Key: "size", Value: nil}, {Key: "j", Value: 7}}
+		case 2:
+			m = map[c08Key]any{"k": v, "j": 7, "size": nil}
+		}
+	} else if nd.Choice(4) == 3 {
+		// a map keyed by a named string type reads the same with a dot and with brackets
+		mm := map[c08Key]any{"k": v, "j": 7}
+		if hasSize {
+			mm["size"] = 5
+		}
+		m = mm
 	}
 	key := nd.StringFrom(1, "kjz")
 	out, err := vRender("{{ m.k }},{{ m['k'] }},{{ m[key] }},{{ m.zz }},{{ m.size }},{{ n.k }},{{ s.k }},{{ m.k.x }}", Bindings{"m": m, "key": key, "s": 3})
@@ -244,6 +290,19 @@ func VerifC08Pipeline() {
 	nd.Reach("C08.pipeline")
 }
 
+// c08Arity: the number of arguments each standard filter takes (optional ones included).
+var c08Arity = []struct {
+	name string
+	args int
+}{
+	{"default", 1}, {"json", 0}, {"compact", 0}, {"concat", 1}, {"join", 1}, {"map", 1}, {"reverse", 0}, {"sort", 1}, {"first", 0},
+	{"last", 0}, {"uniq", 0}, {"date", 1}, {"abs", 0}, {"ceil", 0}, {"floor", 0}, {"modulo", 1}, {"minus", 1}, {"plus", 1}, {"times", 1},
+	{"divided_by", 1}, {"round", 1}, {"size", 0}, {"append", 1}, {"capitalize", 0}, {"downcase", 0}, {"escape", 0}, {"escape_once", 0},
+	{"newline_to_br", 0}, {"prepend", 1}, {"remove", 1}, {"remove_first", 1}, {"replace", 2}, {"replace_first", 2}, {"sort_natural", 1},
+	{"slice", 2}, {"split", 1}, {"strip_html", 0}, {"strip_newlines", 0}, {"strip", 0}, {"lstrip", 0}, {"rstrip", 0}, {"truncate", 2},
+	{"truncatewords", 2}, {"upcase", 0}, {"url_encode", 0}, {"url_decode", 0}, {"inspect", 0}, {"type", 0},
+}
+
 // VerifC08FilterErrors: an unknown filter, or more arguments than the filter takes, is an error.
 func VerifC08FilterErrors() {
 	var src string
@@ -259,6 +318,20 @@ func VerifC08FilterErrors() {
 	}
 	out, err := vRender(src, Bindings{"x": nd.IntIn(-9, 9)})
 	nd.Assert(err != nil && out == "", "bad-filter-use-is-error")
+	// every standard filter, given one argument more than it takes
+	f := c08Arity[nd.Choice(len(c08Arity))]
+	src = "{{ r | " + f.name + ":"
+	for i := 0; i <= f.args; i++ {
+		if i > 0 {
+			src += ","
+		}
+		src += " 1"
+	}
+	src += " }}"
+	for _, r := range []any{"abc", 5, []any{1, 2}} {
+		out, err = vRender(src, Bindings{"r": r})
+		nd.Assert(err != nil && out == "", "one-argument-too-many-is-error")
+	}
 	nd.Reach("C08.filtererrors")
 }
 
